@@ -80,7 +80,7 @@ CLAIMS = {
         "technique": V + " (write_col/end_row: NULL bitmap bit-vector lemmas, row = 0x00 ++ bitmap ++ values, for any column count) + " + K + " (every to_mysql_bin implementation, symbolic value x column type x flags)",
         "design_ref": "DESIGN.md section 6 C07",
         "text": "RowWriter is proved to build binary rows as [0x00] ++ bitmap ++ encodings with bit (i+2)%8 of byte (i+2)/8 set iff cell i is NULL, bitmap length (n+9)/8, NOT NULL columns refuse NULL, too many columns refused; each encoder is proved by CBMC to write exactly the protocol's fixed-width/length-encoded/temporal form or to return Err with nothing written, never to panic.",
-        "note": "Also counts the column-definition clauses of U2 ([C09.coldefs], [C09.count]): rows are decoded with the advertised column types and flags. Assumed in Verus: the abstract ToMysqlValue contract (the Kani harnesses discharge it per implementing type); Vec sink. RowWriter::write_row assumed. After a write_col error the row writer's state is unspecified (a retry may produce a malformed row; see DESIGN.md D16).",
+        "note": "Also counts the column-definition clauses of U2 ([C09.coldefs], [C09.count]): rows are decoded with the advertised column types and flags. Assumed in Verus: the abstract ToMysqlValue contract (the Kani harnesses discharge it per implementing type); Vec sink. Includes C15 (the integer cells). Date and datetime encoders are proved over every date chrono represents (a year outside the 16-bit wire field is refused: defect D17, repaired by fix c515862); chrono's leap-second representation (nanoseconds >= 10^9) is outside the harness domain. After a write_col error the row writer's state is unspecified (a retry may produce a malformed row; see DESIGN.md D16).",
     },
     "C08": {
         "engine": "verus+kani",
@@ -94,7 +94,7 @@ CLAIMS = {
         "technique": V + " (write_column_definitions loop invariant over any number of columns; column_definitions; write_prepare_ok; StatementMetaWriter::reply) + " + K + " (lenenc writers)",
         "design_ref": "DESIGN.md section 6 C09",
         "text": "For any column list the emitted packets are exactly [lenenc(count)] ++ coldef41(c) for each c ++ EOF, and for PREPARE the prepare_ok header with the two counts followed by parameter and column definitions; coldef41 is the protocol's ColumnDefinition41 over the declared table, name, type code and flags.",
-        "note": "Precondition: at most 65535 columns/parameters in a PREPARE reply (16-bit protocol fields; the code truncates silently beyond). Iterator arguments other than slices/arrays are outside the proof (rule R8). String::as_bytes assumed.",
+        "note": "A PREPARE reply with more than 65535 columns or parameters (16-bit protocol fields) is proved to be REFUSED with nothing written ([C09.prepare_ok.refuse]; the pinned code announced truncated counts: defect D18, repaired by fix 6173f81). Iterator arguments other than slices/arrays are outside the proof (rule R8). String::as_bytes assumed.",
     },
     "C10": {
         "engine": "verus",
